@@ -464,6 +464,11 @@ fn build_catalogue() -> Cat {
 	h12.kernel_mmr_size = 19;
 	h12.pow.total_difficulty = Difficulty::from_num(13);
 	uni::mine_header(&mut h12, Difficulty::from_num(1));
+	// a genuinely mined height-0 header (what a chain's own genesis is): passes the PoW and version checks that
+	// run before the later read-time rules, with the height field exactly 0
+	let mut g0 = gen.clone();
+	g0.header.timestamp = gen.header.timestamp;
+	uni::mine_header(&mut g0.header, Difficulty::from_num(1));
 
 	// ---- MMR universe (9 leaves each) and the validation context
 	let mut kernels: Vec<TxKernel> = vec![tx1.kernels()[0].clone(), tx2.kernels()[0].clone(), b_txs.kernels().iter().find(|k| k.is_coinbase()).unwrap().clone()];
@@ -569,6 +574,9 @@ fn build_catalogue() -> Cat {
 		add("Locator", "max20", enc(v, &Locator { hashes: (0..20).map(|i| h32(2, i)).collect() }));
 		add("Header", "h1-v1", enc(v, &b_txs.header));
 		add("Header", "h12-v5", enc(v, &h12));
+		add("Header", "h0-mined", enc(v, &g0.header));
+		add("Block", "height0-mined", enc(v, &g0));
+		add("CompactBlock", "height0-mined", compact_enc(v, &g0, 0x0102030405060708));
 		add("GetPeerAddrs", "caps", enc(v, &GetPeerAddrs { capabilities: Capabilities::PEER_LIST | Capabilities::HEADER_HIST }));
 		add("PeerAddrs", "empty", enc(v, &PeerAddrs { peers: vec![] }));
 		add("PeerAddrs", "v4-v6", enc(v, &PeerAddrs { peers: vec![PeerAddr(v4), PeerAddr(v6)] }));
@@ -628,6 +636,7 @@ fn build_catalogue() -> Cat {
 		add("frame:Headers", "none", frame(v, 9, &enc(v, &Headers { headers: vec![] })));
 		add("frame:Headers", "one", frame(v, 9, &enc(v, &Headers { headers: vec![b_txs.header.clone()] })));
 		add("frame:Headers", "three", frame(v, 9, &enc(v, &Headers { headers: vec![b_txs.header.clone(), h12.clone(), b_empty.header.clone()] })));
+		add("frame:Headers", "height0-first", frame(v, 9, &enc(v, &Headers { headers: vec![g0.header.clone(), b_txs.header.clone()] })));
 		add("frame:Error", "empty", frame(v, 0, &Rec::new(v).e));
 		// unknown message type 200 with a 5 byte body, followed by a Ping
 		let mut unk = frame(v, 3, &enc(v, &vec![1u8, 2, 3, 4, 5]));
